@@ -539,8 +539,10 @@ def check_result(text, stage, res, log, plan):
             if isinstance(err, dict) and not err.get("locations") and not str(err.get("message")).startswith(UNLOCATED_VALIDATION_KINDS):
                 out.append(("validation-error-without-location", repr(err)[:300]))
     if stage == "execute":
+        # (errors raised with user-supplied nodes: their location is the user's business)
+        user_nodes = {json.dumps(p) for p, extra in expected_error_paths(log) if extra == "foreign-nodes"}
         for err in errors:
-            if isinstance(err, dict) and err.get("path") and not err.get("locations"):
+            if isinstance(err, dict) and err.get("path") and not err.get("locations") and json.dumps(err.get("path")) not in user_nodes:
                 out.append(("field-error-without-location", repr(err)[:300]))
     # data presence
     if stage in ("parse", "validate"):
